@@ -8,6 +8,20 @@ POSTGRES = "PostgresStore cannot be executed in this sandbox (no server, none in
 SAMPLED = "absence is not established: the result means no counterexample among the generated cases of the stated shape"
 
 PROPS = {
+    "C01": {
+        "rule": "store tier: a child process runs a generated script (enqueue, batch enqueue, dequeue, ack/nack/dead single and batch, cancel/requeue/delete, "
+                "wal checkpoint) against a SQLite file from 1-4 goroutines (one route each) and logs every returned call; the verif hook SIGKILLs it on the "
+                "n-th hit of one of 13 labels (after BEGIN, around COMMIT, around the autocommit INSERT/UPDATE, between batch INSERTs, inside lease batches, "
+                "around wal_checkpoint, between migration steps), optionally a second child dies while re-opening; the parent reopens the file: open "
+                "succeeds, integrity_check ok, WAL+synchronous=FULL, counters consistent, every acknowledged effect present exactly once with identical "
+                "fields, the in-flight op per goroutine applied atomically or not at all, no foreign id, every surviving message offered again; "
+                "non-trivial = the label was actually hit, >=1 op acknowledged before and >=1 in flight at the kill; distinct by hash of (scripts,label,n)",
+        "level": "fault_enumeration",
+        "assumptions": [SAMPLED, "SIGKILL keeps the OS page cache: power-loss durability (fsync ordering) is not decided; the PRAGMA assertion only pins the configuration",
+                        "trusted: SQLite's WAL recovery", POSTGRES],
+        "guards": ["acked-before-crash", "inflight-applied", "inflight-not-applied", "crash-while-opening"],
+        "parts": [{"engine": "qmodel", "test": "TestProp_C01_StoreCrash", "quick": 500, "thorough": 30000, "shards": {"quick": 8}}],
+    },
     "C02": {
         "rule": "rapid-generated op sequences (1-40 ops over every Store method incl. batch/by-filter forms, clock steps on a 10ms lattice, "
                 "per-case backend/limits/retention config) judged step by step by the transition validator; non-trivial = >=6 state-changing ops "
